@@ -21,6 +21,38 @@ pub enum Item {
     Undefined,
     Simple(u8),
     Float(f64),
+    /// A byte string whose content is an encoding of `inner` (minus `cut` trailing bytes, plus
+    /// `junk`).  Never produced by the readers; used by generators for protected-header slots.
+    /// `wire` holds the content bytes once an encoder has chosen them.
+    Wrapped(Box<Wrapped>),
+}
+
+#[derive(Clone, Debug)]
+pub struct Wrapped {
+    pub inner: Item,
+    pub junk: Vec<u8>,
+    pub cut: usize,
+    pub wire: Option<Vec<u8>>,
+}
+
+impl Wrapped {
+    pub fn new(inner: Item) -> Item {
+        Item::Wrapped(Box::new(Wrapped { inner, junk: vec![], cut: 0, wire: None }))
+    }
+    /// Content bytes: the recorded wire bytes, or the deterministic encoding.
+    pub fn content(&self) -> Vec<u8> {
+        if let Some(w) = &self.wire {
+            return w.clone();
+        }
+        let mut c = encode(&self.inner);
+        let keep = c.len().saturating_sub(self.cut);
+        c.truncate(keep);
+        c.extend_from_slice(&self.junk);
+        c
+    }
+    pub fn is_clean(&self) -> bool {
+        self.junk.is_empty() && self.cut == 0
+    }
 }
 
 /// Structural equality; floats by bit pattern except that all NaNs are equal.
@@ -39,6 +71,8 @@ impl PartialEq for Item {
             (Undefined, Undefined) => true,
             (Simple(a), Simple(b)) => a == b,
             (Float(a), Float(b)) => (a.is_nan() && b.is_nan()) || a.to_bits() == b.to_bits(),
+            (Wrapped(a), Wrapped(b)) => a.content() == b.content(),
+            (Wrapped(a), Bytes(b)) | (Bytes(b), Wrapped(a)) => &a.content() == b,
             _ => false,
         }
     }
@@ -68,6 +102,7 @@ impl Item {
             Item::Undefined => "undefined",
             Item::Simple(_) => "simple",
             Item::Float(_) => "float",
+            Item::Wrapped(_) => "bstr",
         }
     }
     pub fn as_bytes(&self) -> Option<&Vec<u8>> {
@@ -111,6 +146,7 @@ impl Item {
             Item::Array(a) => 1 + a.iter().map(|i| i.depth()).max().unwrap_or(0),
             Item::Map(m) => 1 + m.iter().map(|(k, v)| k.depth().max(v.depth())).max().unwrap_or(0),
             Item::Tag(_, i) => 1 + i.depth(),
+            Item::Wrapped(w) => 1 + w.inner.depth(),
             _ => 0,
         }
     }
@@ -322,6 +358,11 @@ pub fn enc(item: &Item, out: &mut Vec<u8>) {
             }
         }
         Item::Float(f) => put_float(out, *f, 2),
+        Item::Wrapped(w) => {
+            let c = w.content();
+            head(out, 2, c.len() as u64);
+            out.extend_from_slice(&c)
+        }
     }
 }
 
@@ -367,13 +408,13 @@ fn char_boundaries(s: &str) -> Vec<usize> {
 
 /// Encode choosing an encoding style per node from the tape.  An exhausted tape gives the
 /// deterministic encoding.  Returns whether anything non-deterministic was chosen via `varied`.
-pub fn encode_styled(item: &Item, g: &mut Gen, o: StyleOpts) -> Vec<u8> {
+pub fn encode_styled(item: &mut Item, g: &mut Gen, o: StyleOpts) -> Vec<u8> {
     let mut out = Vec::new();
     enc_styled(item, g, o, &mut out);
     out
 }
 
-pub fn enc_styled(item: &Item, g: &mut Gen, o: StyleOpts, out: &mut Vec<u8>) {
+pub fn enc_styled(item: &mut Item, g: &mut Gen, o: StyleOpts, out: &mut Vec<u8>) {
     match item {
         Item::Int(i) => {
             let (major, arg) = if *i >= 0 { (0u8, *i as u64) } else { (1u8, (-1 - *i) as u64) };
@@ -395,6 +436,17 @@ pub fn enc_styled(item: &Item, g: &mut Gen, o: StyleOpts, out: &mut Vec<u8>) {
                 let w = if o.wide { draw_width(g, arg) } else { 0 };
                 head_w(out, major, arg, w)
             }
+        }
+        Item::Wrapped(w) => {
+            // choose the content encoding first, record it, then emit it as a styled byte string
+            let mut c = Vec::new();
+            enc_styled(&mut w.inner, g, o, &mut c);
+            let keep = c.len().saturating_sub(w.cut);
+            c.truncate(keep);
+            c.extend_from_slice(&w.junk);
+            w.wire = Some(c.clone());
+            let mut tmp = Item::Bytes(c);
+            enc_styled(&mut tmp, g, o, out)
         }
         Item::Bytes(b) => {
             if o.indefinite && g.ratio(1, 8) {
@@ -449,14 +501,14 @@ pub fn enc_styled(item: &Item, g: &mut Gen, o: StyleOpts, out: &mut Vec<u8>) {
         Item::Array(a) => {
             if o.indefinite && g.ratio(1, 8) {
                 out.push(0x9f);
-                for i in a {
+                for i in a.iter_mut() {
                     enc_styled(i, g, o, out)
                 }
                 out.push(0xff);
             } else {
                 let w = if o.wide { draw_width(g, a.len() as u64) } else { 0 };
                 head_w(out, 4, a.len() as u64, w);
-                for i in a {
+                for i in a.iter_mut() {
                     enc_styled(i, g, o, out)
                 }
             }
@@ -464,7 +516,7 @@ pub fn enc_styled(item: &Item, g: &mut Gen, o: StyleOpts, out: &mut Vec<u8>) {
         Item::Map(m) => {
             if o.indefinite && g.ratio(1, 8) {
                 out.push(0xbf);
-                for (k, v) in m {
+                for (k, v) in m.iter_mut() {
                     enc_styled(k, g, o, out);
                     enc_styled(v, g, o, out)
                 }
@@ -472,7 +524,7 @@ pub fn enc_styled(item: &Item, g: &mut Gen, o: StyleOpts, out: &mut Vec<u8>) {
             } else {
                 let w = if o.wide { draw_width(g, m.len() as u64) } else { 0 };
                 head_w(out, 5, m.len() as u64, w);
-                for (k, v) in m {
+                for (k, v) in m.iter_mut() {
                     enc_styled(k, g, o, out);
                     enc_styled(v, g, o, out)
                 }
@@ -834,6 +886,17 @@ fn diag_into(i: &Item, s: &mut String) {
         }
         Item::Float(f) => {
             let _ = write!(s, "{:?}_f", f);
+        }
+        Item::Wrapped(w) => {
+            s.push_str("<<");
+            diag_into(&w.inner, s);
+            if w.cut > 0 {
+                let _ = write!(s, " cut {}", w.cut);
+            }
+            if !w.junk.is_empty() {
+                let _ = write!(s, " + junk {}", hex_trunc(&w.junk, 8));
+            }
+            s.push_str(">>");
         }
     }
 }
